@@ -105,6 +105,149 @@ theorem subtype_symm (a b : Ty) (ha : WF a) (hb : WF b) : subtype table a b = su
   · obtain ⟨v, hw, h, h'⟩ := h1.1 hab
     exact absurd (h2.2 ⟨v, hw, h', h⟩) (by simp [hba])
 
+/-! ## The call boundary, every argument-passing form -/
+
+/-- every bound value is compatible with the declared type of its input -/
+def compatAll : List Ty → List Ty → Bool
+  | v :: vs, d :: ds => compat v d && compatAll vs ds
+  | _, _ => true
+
+theorem judgeAll_exact : (vs ds : List Ty) → (∀ v ∈ vs, WF v) → (∀ d ∈ ds, d.allElems okElem = true) →
+    judgeAll table vs ds = compatAll vs ds
+  | [], _, _, _ => by simp [judgeAll, compatAll]
+  | _ :: _, [], _, _ => by simp [judgeAll, compatAll]
+  | v :: vs, d :: ds, hv, hd => by
+    simp only [judgeAll, compatAll]
+    rw [subtype_exact v d (hv v (by simp)) (hd d (by simp)),
+        judgeAll_exact vs ds (fun x hx => hv x (by simp [hx])) (fun x hx => hd x (by simp [hx]))]
+
+/-- **The compatibility judgement is applied exactly at the call boundary, whatever the argument-passing form**:
+    `inline(model)(*pos, **kw)` is accepted iff the arguments bind (Python's rules) and EVERY bound value -
+    positional, keyword or default - is compatible with the declared type of its input. -/
+theorem call_boundary_exact (decl dflt : List (String × Ty)) (pos : List Ty) (kw : List (String × Ty))
+    (hpos : ∀ v ∈ pos, WF v) (hkw : ∀ p ∈ kw, WF p.2) (hdf : ∀ p ∈ dflt, WF p.2)
+    (hdecl : ∀ p ∈ decl, p.2.allElems okElem = true) :
+    callAccepted table decl dflt pos kw = true ↔
+      ∃ vs, bindCall (decl.map (·.1)) dflt pos kw = some vs ∧ compatAll vs (decl.map (·.2)) = true := by
+  have hlk : ∀ (l : List (String × Ty)) (n : String) (v : Ty), (∀ p ∈ l, WF p.2) → lookupKw l n = some v → WF v := by
+    intro l n v hl h
+    simp only [lookupKw, Option.map_eq_some_iff] at h
+    obtain ⟨p, hp, rfl⟩ := h
+    exact hl p (List.mem_of_find?_eq_some hp)
+  have hone : ∀ n i v, bindOne dflt pos kw n i = some v → WF v := by
+    intro n i v h
+    simp only [bindOne] at h
+    cases hp : pos[i]? with
+    | some x =>
+      simp only [hp, Option.some.injEq] at h; subst h
+      exact hpos x (List.mem_of_getElem? hp)
+    | none =>
+      simp only [hp] at h
+      cases hk : lookupKw kw n with
+      | some x => simp only [hk, Option.some.injEq] at h; subst h; exact hlk kw n x hkw hk
+      | none => simp only [hk] at h; exact hlk dflt n v hdf h
+  have hfrom : ∀ (ns : List String) (i : Nat) (vs : List Ty), bindFrom dflt pos kw ns i = some vs → ∀ v ∈ vs, WF v := by
+    intro ns
+    induction ns with
+    | nil => intro i vs h; simp [bindFrom] at h; subst h; simp
+    | cons n ns ih =>
+      intro i vs h
+      simp only [bindFrom] at h
+      cases h1 : bindOne dflt pos kw n i with
+      | none => simp [h1] at h
+      | some v =>
+        cases h2 : bindFrom dflt pos kw ns (i + 1) with
+        | none => simp [h1, h2] at h
+        | some rest =>
+          simp only [h1, h2, Option.some.injEq] at h; subst h
+          intro x hx
+          rcases List.mem_cons.1 hx with rfl | hx
+          · exact hone n i _ h1
+          · exact ih (i + 1) rest h2 x hx
+  have hd : ∀ d ∈ decl.map (·.2), d.allElems okElem = true := by
+    intro d hd
+    obtain ⟨p, hp, rfl⟩ := List.mem_map.1 hd
+    exact hdecl p hp
+  simp only [callAccepted]
+  cases hb : bindCall (decl.map (·.1)) dflt pos kw with
+  | none => simp
+  | some vs =>
+    have hwf : ∀ v ∈ vs, WF v := by
+      simp only [bindCall] at hb
+      split at hb
+      · simp at hb
+      · split at hb
+        · simp at hb
+        · split at hb
+          · simp at hb
+          · exact hfrom _ 0 vs hb
+    simp [judgeAll_exact vs _ hwf hd]
+
+-- one model input `x : e3[2]` between two e11 scalars `p`, `q`: the incompatible `e11[2]` is refused in
+-- every argument-passing form, the compatible `e3['N']` accepted in every form (3 and 11 are two distinct element classes of the generated table)
+example : let f32 : Ty := .tensor 11 (some []); let decl := [("p", f32), ("x", Ty.tensor 3 (some [.const 2])), ("q", f32)]
+    let bad : Ty := .tensor 11 (some [.const 2]); let ok : Ty := .tensor 3 (some [.unk "N"])
+    callAccepted table decl [] [f32, bad, f32] [] = false ∧ callAccepted table decl [] [] [("q", f32), ("x", bad), ("p", f32)] = false ∧
+    callAccepted table decl [] [f32] [("x", bad), ("q", f32)] = false ∧
+    callAccepted table decl [] [f32, ok, f32] [] = true ∧ callAccepted table decl [] [] [("q", f32), ("x", ok), ("p", f32)] = true ∧
+    callAccepted table decl [] [f32] [("x", ok), ("q", f32)] = true ∧
+    -- binding errors: a name given twice, an unknown keyword, a missing argument
+    callAccepted table decl [] [f32, ok] [("x", ok), ("q", f32)] = false ∧ callAccepted table decl [] [f32, ok, f32] [("z", f32)] = false ∧
+    callAccepted table decl [] [f32, ok] [] = false ∧ callAccepted table decl [("q", f32)] [f32, ok] [] = true := by decide +kernel
+
+
+/-! ### argument binding: positional, keyword (any order) -/
+
+theorem bindFrom_pos (dflt : List (String × Ty)) (kw : List (String × Ty)) :
+    (names : List String) → (pre vs : List Ty) → names.length = vs.length →
+      bindFrom dflt (pre ++ vs) kw names pre.length = some vs
+  | [], pre, vs, h => by
+    have : vs = [] := by cases vs <;> simp_all
+    subst this; simp [bindFrom]
+  | n :: ns, pre, [], h => by simp at h
+  | n :: ns, pre, v :: vs, h => by
+    simp only [List.length_cons, Nat.add_right_cancel_iff] at h
+    have ih := bindFrom_pos dflt kw ns (pre ++ [v]) vs h
+    simp only [List.append_assoc, List.singleton_append, List.length_append, List.length_cons, List.length_nil,
+      Nat.zero_add] at ih
+    simp [bindFrom, bindOne, ih]
+
+/-- All-positional call: the values are bound in order (when there are as many as inputs). -/
+theorem bindCall_positional (names : List String) (dflt : List (String × Ty)) (vs : List Ty)
+    (h : names.length = vs.length) : bindCall names dflt vs [] = some vs := by
+  have := bindFrom_pos dflt [] names [] vs h
+  simp only [List.nil_append, List.length_nil] at this
+  simp [bindCall, h, lookupKw, this]
+
+theorem bindFrom_congr (dflt : List (String × Ty)) (pos : List Ty) (kw kw' : List (String × Ty))
+    (h : ∀ n, lookupKw kw n = lookupKw kw' n) :
+    (names : List String) → (i : Nat) → bindFrom dflt pos kw names i = bindFrom dflt pos kw' names i
+  | [], _ => rfl
+  | n :: ns, i => by simp only [bindFrom, bindOne, h, bindFrom_congr dflt pos kw kw' h ns (i + 1)]
+
+/-- **The order (and any other presentation) of the keyword arguments is irrelevant**: two keyword lists that give
+    every name the same value, and agree on whether an unknown keyword is present, bind identically - so the
+    judgement of `call_boundary_exact` falls on the same values. -/
+theorem bindCall_keyword_order (names : List String) (dflt : List (String × Ty)) (pos : List Ty)
+    (kw kw' : List (String × Ty)) (h : ∀ n, lookupKw kw n = lookupKw kw' n)
+    (hu : kw.any (fun p => !names.contains p.1) = kw'.any (fun p => !names.contains p.1)) :
+    bindCall names dflt pos kw = bindCall names dflt pos kw' := by
+  simp only [bindCall, h, hu, bindFrom_congr dflt pos kw kw' h names 0]
+
+/-- A keyword call that names every input binds the keyword values in the order of the model's inputs. -/
+theorem bindFrom_keywords (dflt kw : List (String × Ty)) :
+    (names : List String) → (i : Nat) → (∀ n ∈ names, (lookupKw kw n).isSome = true) →
+      bindFrom dflt [] kw names i = some (names.map (fun n => (lookupKw kw n).getD default))
+  | [], _, _ => rfl
+  | n :: ns, i, h => by
+    have hn := h n (by simp)
+    cases hk : lookupKw kw n with
+    | none => simp [hk] at hn
+    | some v =>
+      have ih := bindFrom_keywords dflt kw ns (i + 1) (fun m hm => h m (by simp [hm]))
+      simp [bindFrom, bindOne, hk, ih]
+
+
 /-! ## Broadcasting -/
 
 /-- **On known dimensions static broadcasting is numpy's rule.** -/
@@ -285,6 +428,11 @@ example : ∃ s ∈ spellings, s.defined = false := by decide +kernel
 example : broadcast (some [.const 2, .unk "N", .const 1]) (some [.const 3, .unk ""])
     = some (some [.const 2, .const 3, .unk ""]) := by decide
 example : broadcast (some [.const 2]) (some [.const 3]) = none := by decide
+-- dimension names that look like the ones other layers invent or strip survive verbatim, at any nesting depth
+example : fromOnnx table (.seq (.opt (.tensor 1 (some [.param "unk__0", .value 3, .param "7", .param "名"]))))
+    = (table.ofCode 1).map (fun e => Ty.seq (.opt (.tensor e (some [.unk "unk__0", .const 3, .unk "7", .unk "名"])))) := by
+  cases h : table.ofCode 1 <;> simp [fromOnnx, h, Natural.fromOnnx]
+example : Natural.fromOnnx (Natural.toOnnx (.unk "unk__batch")) = .unk "unk__batch" := by decide
 example : npBroadcast [2, 1, 3] [4, 1] = some [2, 4, 3] := by decide
 -- the spellings `(2, 'N', None)` and `(2, 'N', '')` denote one shape; `None` denotes the unknown rank
 example : Shape.fromSimple (some [.int 2, .str "N", .none]) = Shape.fromSimple (some [.int 2, .str "N", .str ""]) := by decide
